@@ -70,6 +70,7 @@ type caseRec struct {
 	Links   []link     `json:"links"`   // empty: builder default
 	MaskCfg [][]string `json:"maskcfg"` // empty: builder default
 	MaskChk [][]string `json:"maskchk"` // paths the probe looks at
+	Dyn     [][]string `json:"dyn"`     // further paths the probe tries to modify (below shared-propagation sources)
 	LinkM   string     `json:"linkm"`
 	MaskM   string     `json:"maskm"`
 	DevNull bool       `json:"devnull"`
@@ -104,28 +105,32 @@ type miEnt struct {
 	Root string   `json:"root"` // source id for binds, "/" otherwise
 	Opts []string `json:"opts"` // per-mount options (sorted)
 	SbRo bool     `json:"sbro"`
+	Prop string   `json:"prop"` // propagation from the optional fields: private | slave | shared | shared+slave
 }
 
 type obsRec struct {
-	Case     caseRec   `json:"case"`
-	Started  bool      `json:"started"`
-	Attempts int       `json:"attempts"` // failed launch attempts before this record
-	Phase    string    `json:"phase"`    // where a failed launch failed ("" when started)
-	Err      string    `json:"err"`
-	Exit     int       `json:"exit"`
-	Cwd      string    `json:"cwd"`
-	Tree     []treeEnt `json:"tree"`
-	Trunc    bool      `json:"trunc"`
-	OldRoot  int       `json:"oldroot"`
-	DotDot   bool      `json:"dotdot"`
-	Canary   []string  `json:"canary"`
-	Masks    []maskRes `json:"masks"`
-	Tests    []testRes `json:"tests"`
-	Mi       []miEnt   `json:"mi"` // /proc/<pid>/mountinfo read by the driver just before exec
-	HasMiIn  bool      `json:"hasmiin"`
-	MiIn     []miEnt   `json:"miin"`   // /proc/self/mountinfo read by the probe (when proc is mounted)
-	SrcFl    []string  `json:"srcfl"`  // statfs flags of the ordinary source directory (host fact)
-	LockFl   []string  `json:"lockfl"` // statfs flags of the "locked" source directory (host fact)
+	Case       caseRec   `json:"case"`
+	Started    bool      `json:"started"`
+	Attempts   int       `json:"attempts"` // failed launch attempts before this record
+	Phase      string    `json:"phase"`    // where a failed launch failed ("" when started)
+	Err        string    `json:"err"`
+	Exit       int       `json:"exit"`
+	Cwd        string    `json:"cwd"`
+	Tree       []treeEnt `json:"tree"`
+	Trunc      bool      `json:"trunc"`
+	OldRoot    int       `json:"oldroot"`
+	DotDot     bool      `json:"dotdot"`
+	Canary     []string  `json:"canary"`
+	Masks      []maskRes `json:"masks"`
+	Tests      []testRes `json:"tests"`
+	Mi         []miEnt   `json:"mi"` // /proc/<pid>/mountinfo read by the driver just before exec
+	HasMiIn    bool      `json:"hasmiin"`
+	MiIn       []miEnt   `json:"miin"`       // /proc/self/mountinfo read by the probe (when proc is mounted)
+	SrcFl      []string  `json:"srcfl"`      // statfs flags of the ordinary source directory (host fact)
+	LockFl     []string  `json:"lockfl"`     // statfs flags of the "locked" source directory (host fact)
+	ShareFl    []string  `json:"sharefl"`    // statfs flags of the shared-propagation source file system (host fact)
+	SrcShared  bool      `json:"srcshared"`  // that file system has shared propagation in the driver's namespace (host fact)
+	DynMounted int       `json:"dynmounted"` // file systems the driver mounted below shared sources once the sandbox was set up
 	// which of the maskable procfs entries exist on this kernel (host fact, from the host's /proc)
 	ProcFacts []treeEnt `json:"procfacts"`
 }
@@ -170,12 +175,15 @@ func abs(c []string) string { return "/" + strings.Join(c, "/") }
 // ---------------------------------------------------------------- environment of one run
 
 type env struct {
-	work    string // scratch directory of this run
-	probe   *os.File
-	locked  string // directory on a nosuid,nodev,noexec tmpfs (sources of the "locked" kinds)
-	srcFl   []string
-	lockFl  []string
-	timeout time.Duration
+	work     string // scratch directory of this run
+	probe    *os.File
+	locked   string // directory on a nosuid,nodev,noexec tmpfs (sources of the "locked" kinds)
+	shared   string // directory on a tmpfs with SHARED propagation (sources of the "shared" kinds)
+	shareFl  []string
+	isShared bool // mountinfo of the driver says the tmpfs really is shared
+	srcFl    []string
+	lockFl   []string
+	timeout  time.Duration
 }
 
 var allowAll = seccomp.Filter{{Code: 0x06, K: 0x7fff0000}} // BPF_RET|BPF_K SECCOMP_RET_ALLOW
@@ -258,6 +266,19 @@ func (e *env) prepare(c caseRec) (*caseDirs, error) {
 			if err := os.WriteFile(filepath.Join(ld, cd.canaryName), []byte("canary\n"), 0644); err != nil {
 				return nil, err
 			}
+		case 'p':
+			// on the shared tmpfs; "dyn" is where the driver mounts a file system while the sandbox lives
+			sd := filepath.Join(e.shared, fmt.Sprintf("c%d", c.ID))
+			if err := mkSourceDir(filepath.Join(sd, en.Src)); err != nil {
+				return nil, err
+			}
+			if err := os.MkdirAll(filepath.Join(sd, en.Src, "dyn"), 0777); err != nil {
+				return nil, err
+			}
+			os.Chmod(filepath.Join(sd, en.Src, "dyn"), 0777)
+			if err := os.WriteFile(filepath.Join(sd, cd.canaryName), []byte("canary\n"), 0644); err != nil {
+				return nil, err
+			}
 		case 'm': // deliberately missing
 		}
 	}
@@ -290,6 +311,8 @@ func (e *env) srcPath(cd *caseDirs, c caseRec, id string) string {
 		return "/dev/null"
 	case id[0] == 'l':
 		return filepath.Join(e.locked, fmt.Sprintf("c%d", c.ID), id)
+	case id[0] == 'p':
+		return filepath.Join(e.shared, fmt.Sprintf("c%d", c.ID), id)
 	default:
 		return filepath.Join(cd.src, id)
 	}
@@ -298,6 +321,35 @@ func (e *env) srcPath(cd *caseDirs, c caseRec, id string) string {
 func (e *env) cleanup(cd *caseDirs, c caseRec) {
 	os.RemoveAll(cd.dir)
 	os.RemoveAll(filepath.Join(e.locked, fmt.Sprintf("c%d", c.ID)))
+	e.dynUmount(c)
+	os.RemoveAll(filepath.Join(e.shared, fmt.Sprintf("c%d", c.ID)))
+}
+
+// dynMount: the host mounts a tmpfs with a marker file below every shared-propagation bind source.
+// Called from the sync callback: the sandbox's namespace is complete, its program is about to be
+// exec'd.  A sandbox whose mounts still receive propagation shows the new file system inside.
+func (e *env) dynMount(c caseRec) int {
+	n := 0
+	for _, en := range c.Ents {
+		if (en.API != "bind" && en.API != "raw") || en.Src[0] != 'p' {
+			continue
+		}
+		d := filepath.Join(e.shared, fmt.Sprintf("c%d", c.ID), en.Src, "dyn")
+		if err := syscall.Mount("vdyn", d, "tmpfs", 0, "mode=0777"); err != nil {
+			continue
+		}
+		os.WriteFile(filepath.Join(d, "hostmarker"), []byte("mounted by the host while the sandbox was alive\n"), 0666)
+		n++
+	}
+	return n
+}
+
+func (e *env) dynUmount(c caseRec) {
+	for _, en := range c.Ents {
+		if (en.API == "bind" || en.API == "raw") && en.Src[0] == 'p' {
+			syscall.Unmount(filepath.Join(e.shared, fmt.Sprintf("c%d", c.ID), en.Src, "dyn"), syscall.MNT_DETACH)
+		}
+	}
 }
 
 // the mount table exactly as a client of the library writes it
@@ -342,6 +394,12 @@ func (e *env) probeArgs(cd *caseDirs, c caseRec, outfd int) []string {
 			args = append(args, "T:"+p)
 		}
 	}
+	for _, d := range c.Dyn {
+		if p := abs(d); !seen[p] {
+			seen[p] = true
+			args = append(args, "T:"+p)
+		}
+	}
 	for _, m := range c.MaskChk {
 		args = append(args, "M:"+abs(m))
 	}
@@ -374,7 +432,7 @@ func (e *env) parseMountinfo(cd *caseDirs, c caseRec, text string) []miEnt {
 		case strings.HasPrefix(root, cd.src+"/"):
 			root = strings.TrimPrefix(root, cd.src+"/")
 		case strings.HasPrefix(root, lockrel+"/") && f[sep+1] == "tmpfs":
-			root = strings.TrimPrefix(root, lockrel+"/")
+			root = strings.TrimPrefix(root, lockrel+"/") // same relative layout on the locked and on the shared tmpfs
 		case root == "/null":
 			root = "devnull"
 		case strings.HasPrefix(root, "/.mask") && f[sep+1] == "tmpfs":
@@ -395,7 +453,25 @@ func (e *env) parseMountinfo(cd *caseDirs, c caseRec, text string) []miEnt {
 				}
 			}
 		}
-		out = append(out, miEnt{At: comps(unescape(f[4])), Fs: f[sep+1], Root: root, Opts: opts, SbRo: sbro})
+		prop := "private"
+		sh, sl := false, false
+		for _, tag := range f[6:sep] {
+			if strings.HasPrefix(tag, "shared:") {
+				sh = true
+			}
+			if strings.HasPrefix(tag, "master:") {
+				sl = true
+			}
+		}
+		switch {
+		case sh && sl:
+			prop = "shared+slave"
+		case sh:
+			prop = "shared"
+		case sl:
+			prop = "slave"
+		}
+		out = append(out, miEnt{At: comps(unescape(f[4])), Fs: f[sep+1], Root: root, Opts: opts, SbRo: sbro, Prop: prop})
 	}
 	return out
 }
@@ -496,7 +572,7 @@ func (p *pipeReader) finish() []byte {
 }
 
 func (e *env) runFork(c caseRec) (o obsRec, err error) {
-	o = obsRec{Case: c, SrcFl: e.srcFl, LockFl: e.lockFl, ProcFacts: procFacts(c), Mi: []miEnt{}, MiIn: []miEnt{}, Tree: []treeEnt{}, Canary: []string{}, Masks: []maskRes{}, Tests: []testRes{}}
+	o = obsRec{Case: c, SrcFl: e.srcFl, LockFl: e.lockFl, ShareFl: e.shareFl, SrcShared: e.isShared, ProcFacts: procFacts(c), Mi: []miEnt{}, MiIn: []miEnt{}, Tree: []treeEnt{}, Canary: []string{}, Masks: []maskRes{}, Tests: []testRes{}}
 	cd, err := e.prepare(c)
 	if err != nil {
 		return o, err
@@ -518,6 +594,7 @@ func (e *env) runFork(c caseRec) (o obsRec, err error) {
 	}
 	defer null.Close()
 	var mi string
+	dyn := 0
 	r := &unshare.Runner{
 		Args:     e.probeArgs(cd, c, 1),
 		Env:      []string{"PATH=/"},
@@ -530,6 +607,7 @@ func (e *env) runFork(c caseRec) (o obsRec, err error) {
 		Mounts:   params,
 		HostName: "vmounts", DomainName: "vmounts",
 		SyncFunc: func(pid int) error {
+			dyn = e.dynMount(c)
 			b, rerr := os.ReadFile(fmt.Sprintf("/proc/%d/mountinfo", pid))
 			if rerr != nil {
 				return rerr
@@ -543,6 +621,7 @@ func (e *env) runFork(c caseRec) (o obsRec, err error) {
 	cancel()
 	raw := pr.finish()
 	o.Mi = e.parseMountinfo(cd, c, mi)
+	o.DynMounted = dyn
 	if res.Status == runner.StatusRunnerError {
 		o.Phase, o.Err = forkPhase(res.Error), res.Error
 		return o, nil
@@ -582,7 +661,7 @@ func (l *lockedBuf) String() string {
 }
 
 func (e *env) runCont(c caseRec) (o obsRec, err error) {
-	o = obsRec{Case: c, SrcFl: e.srcFl, LockFl: e.lockFl, ProcFacts: procFacts(c), Mi: []miEnt{}, MiIn: []miEnt{}, Tree: []treeEnt{}, Canary: []string{}, Masks: []maskRes{}, Tests: []testRes{}}
+	o = obsRec{Case: c, SrcFl: e.srcFl, LockFl: e.lockFl, ShareFl: e.shareFl, SrcShared: e.isShared, ProcFacts: procFacts(c), Mi: []miEnt{}, MiIn: []miEnt{}, Tree: []treeEnt{}, Canary: []string{}, Masks: []maskRes{}, Tests: []testRes{}}
 	cd, err := e.prepare(c)
 	if err != nil {
 		return o, err
@@ -635,6 +714,7 @@ func (e *env) runCont(c caseRec) (o obsRec, err error) {
 	}
 	defer null.Close()
 	var mi string
+	dyn := 0
 	ctx, cancel := context.WithTimeout(context.Background(), e.timeout)
 	res := envc.Execve(ctx, container.ExecveParam{
 		Args:     e.probeArgs(cd, c, 1),
@@ -643,6 +723,7 @@ func (e *env) runCont(c caseRec) (o obsRec, err error) {
 		ExecFile: e.probe.Fd(),
 		Seccomp:  allowAll,
 		SyncFunc: func(pid int) error {
+			dyn = e.dynMount(c)
 			bb, rerr := os.ReadFile(fmt.Sprintf("/proc/%d/mountinfo", pid))
 			if rerr != nil {
 				return rerr
@@ -654,6 +735,7 @@ func (e *env) runCont(c caseRec) (o obsRec, err error) {
 	cancel()
 	raw := pr.finish()
 	o.Mi = e.parseMountinfo(cd, c, mi)
+	o.DynMounted = dyn
 	o.Exit = res.ExitStatus
 	if res.Status != runner.StatusNormal {
 		return o, fmt.Errorf("case %d: probe in container ended with %v (%s) exit=%d out=%q stderr=%q", c.ID, res.Status, res.Error, res.ExitStatus, truncate(raw), stderr.String())
@@ -714,6 +796,33 @@ func runMain(args []string) error {
 		return fmt.Errorf("mount locked tmpfs: %v", err)
 	}
 	defer syscall.Unmount(e.locked, syscall.MNT_DETACH)
+	e.shared = filepath.Join(e.work, "shared")
+	if err := os.MkdirAll(e.shared, 0755); err != nil {
+		return err
+	}
+	if err := syscall.Mount("vshared", e.shared, "tmpfs", 0, "mode=0777"); err != nil {
+		return fmt.Errorf("mount shared tmpfs: %v", err)
+	}
+	defer syscall.Unmount(e.shared, syscall.MNT_DETACH)
+	if err := syscall.Mount("", e.shared, "", syscall.MS_SHARED, ""); err != nil {
+		return fmt.Errorf("make shared: %v", err)
+	}
+	e.shareFl = statfsFlags(e.shared)
+	if b, err := os.ReadFile("/proc/self/mountinfo"); err == nil {
+		for _, line := range strings.Split(string(b), "\n") {
+			f := strings.Fields(line)
+			if len(f) > 6 && f[4] == e.shared {
+				for _, tag := range f[6:] {
+					if tag == "-" {
+						break
+					}
+					if strings.HasPrefix(tag, "shared:") {
+						e.isShared = true
+					}
+				}
+			}
+		}
+	}
 	e.srcFl = statfsFlags(e.work)
 	e.lockFl = statfsFlags(e.locked)
 
